@@ -1008,6 +1008,21 @@ class UrlDispatcher(AbstractRouter, Mapping[str, AbstractResource]):
             for candidate in resource_index.get(url_part, ()):
                 match_dict, allowed = await candidate.resolve(request)
                 if match_dict is not None:
+                    if allowed_methods and isinstance(
+                        match_dict.http_exception,
+                        (HTTPNotFound, HTTPMethodNotAllowed),
+                    ):
+                        # A sub-application answered 404/405. Resources of this
+                        # application that matched the path before it was reached
+                        # still serve other methods: report all of them.
+                        merged = MatchInfoError(
+                            HTTPMethodNotAllowed(
+                                request.method, allowed_methods | allowed
+                            )
+                        )
+                        for app in reversed(match_dict.apps):
+                            merged.add_app(app)
+                        return merged
                     return match_dict
                 else:
                     allowed_methods |= allowed
